@@ -69,6 +69,7 @@ impl Seek for Src {
         let new = match pos {
             SeekFrom::Start(o) => {
                 self.stats.borrow_mut().abs_seeks += 1;
+                crate::io::note_block_load();
                 o as i64
             }
             SeekFrom::End(d) => {
@@ -494,6 +495,10 @@ pub fn corner_files() -> Vec<(Cfg, Vec<Entry>)> {
     // a small tree with two blocks on index level 2 (12 entries, two per data block): model-checked
     // in the quick tier
     v.push((c(0, 1024, 1, 2), longs(12, 400)));
+    // index key intervals above the default 8 with many small entries per block
+    v.push((c(0, 1024, 9, 0), (0..90u32).map(|i| ((i * 2).to_be_bytes().to_vec(), value_for(i + 1, 3))).collect()));
+    v.push((c(0, 1024, 16, 1), (0..150u32).map(|i| ((i * 3).to_be_bytes().to_vec(), value_for(i + 1, 0))).collect()));
+    v.push((c(5, 4096, 1000, 2), (0..260u32).map(|i| ((i * 2).to_be_bytes().to_vec(), value_for(i + 1, 7))).collect()));
     v
 }
 
